@@ -794,3 +794,24 @@ def node_objects(ctx: Ctx, rule: str) -> None:
                 and any(ast.unparse(x) == "self.objects += [image]" for x in guard[0].body)
     ctx.record(rule, "PROV", fref, "objects = [net] + each vm + its parsed images + every image the node's own vm-specific parameters declare beyond those", ok, detail,
                "" if ok else "images that only this test declares for a vm are no longer taken from the test's own parameters: their dependencies would never be followed")
+
+
+# ---------------------------------------------------------------------- restriction accumulation
+def restriction_updates(ctx: Ctx, rule: str) -> None:
+    """TestNode.update_restrs and TestObject.update_restrs: identical, additive, duplicate test by whole line."""
+    fa = ctx.repo.func(f"{N_}.update_restrs")
+    fb = ctx.repo.func("cartgraph/object.py:TestObject.update_restrs")
+    ctx.touch(fa.ref)
+    ctx.touch(fb.ref)
+
+    def body(f):
+        return [ast.dump(s_) for s_ in f.node.body if not (isinstance(s_, ast.Expr) and isinstance(s_.value, ast.Constant))]
+
+    same = body(fa) == body(fb)
+    src = ast.unparse(fa.node)
+    p = fa.params()[1]
+    exact = (f"for suffix, restriction in {p}.items():" in src and "self.restrs[suffix] = self.restrs.get(suffix, '')" in src
+             and "if restriction.rstrip() not in self.restrs[suffix].splitlines():" in src and "self.restrs[suffix] += restriction" in src
+             and "if restriction != '':" in src)
+    ctx.record(rule, "SIBLING", f"{fa.ref} / {fb.ref}", "both update_restrs: per suffix, a non-empty restriction is appended unless that exact line is already present", same and exact, {},
+               "" if same and exact else "node and object restrictions are no longer accumulated alike / by whole lines (a restriction contained in another one's text would be dropped: lazy and eager parsing then differ)")
